@@ -6,7 +6,7 @@
    rejected.  The composite statement over description trees is correspondence
    + oracle (prefixes, mutations, random strings, somersault). *)
 From Coq Require Import ZArith List Bool.
-From OV Require Import Base.Bytes Base.Wire Generated Model.Str Model.Codec Proofs.BytesProofs Proofs.AtomicProofs Proofs.CodecProps.
+From OV Require Import Base.Bytes Base.Wire Generated Model.Str Model.Codec Proofs.BytesProofs Proofs.AtomicProofs Proofs.CodecProps Proofs.FlatProofs Proofs.FlatDecodeProofs.
 Import ListNotations.
 Open Scope Z_scope.
 
@@ -20,3 +20,40 @@ Theorem C05_atomic_truncation : forall s bl bt en hl,
   extract_atomic s bl bt en hl = Err EDecode.
 Proof. exact extract_truncated. Qed.
 Print Assumptions C05_atomic_truncation.
+
+(* ---------- message level (Proofs/FlatDecodeProofs.v), about the model's entry point decode_msg ---------- *)
+(* for every message which is a sequence of any number of CODED-CONST / VALUE parameters with implicit
+   positions over STANDARD-LENGTH types of positive bit length and a legal base type / encoding pair
+   (no bit mask, IDENTICAL compu method), and EVERY byte string: the outcome is a dictionary of values or a
+   decode error -- no other error class, no fuel exhaustion *)
+Theorem C05_flat_message_total : forall fl m,
+  (forall x, In x fl -> fwf x) -> dec_outcome_ok (decode_msg (map mkp fl) m).
+Proof. exact flat_decode_total. Qed.
+Print Assumptions C05_flat_message_total.
+
+(* a PDU that ends before the last described parameter is rejected with a decode error, never completed *)
+Theorem C05_flat_message_truncation : forall fl m,
+  (forall x, In x fl -> fwf x) -> blen m < total_bytes fl ->
+  decode_msg (map mkp fl) m = Err EDecode \/ decode_msg (map mkp fl) m = Err EMismatch.
+Proof. exact flat_truncated_rejected. Qed.
+Print Assumptions C05_flat_message_truncation.
+
+Theorem C05_flat_shorter_than_static : forall fl m sb,
+  (forall x, In x fl -> fwf x) -> static_bits_msg (map mkp fl) = Some sb -> 8 * blen m < sb ->
+  decode_msg (map mkp fl) m = Err EDecode \/ decode_msg (map mkp fl) m = Err EMismatch.
+Proof. exact flat_shorter_than_static_rejected. Qed.
+Print Assumptions C05_flat_shorter_than_static.
+
+Theorem C05_flat_decoded_is_long_enough : forall fl m v,
+  (forall x, In x fl -> fwf x) -> decode_msg (map mkp fl) m = Ok v -> total_bytes fl <= blen m.
+Proof. exact flat_decoded_is_long_enough. Qed.
+Print Assumptions C05_flat_decoded_is_long_enough.
+
+(* the premises are satisfiable, both outcomes occur *)
+Example C05_flat_example :
+  let fl := [mkF [115] 8 BUint None true BUint (Some (VInt 34)); mkF [97] 12 BUint None false BUint None] in
+  (forall x, In x fl -> fwf x) /\ total_bytes fl = 3 /\
+  decode_msg (map mkp fl) [34; 1] = Err EDecode /\
+  decode_msg (map mkp fl) [34; 1; 2; 9] = Ok (VDict [([115], VInt 34); ([97], VInt 513)]).
+Proof. exact flat_decode_example. Qed.
+Print Assumptions C05_flat_example.
